@@ -371,6 +371,8 @@ def run_send_sync(ck, F):
 
 def run(ck, tier):
     F = factsmod.Facts("ws")
+    from . import influence as _infl
+    _infl.run(ck, F, 'C16')
     run_send_sync(ck, F)
     api.no_impl(ck, F, "C16.no-mut-view", ["arrow_buffer", "arrow_data", "arrow_array"], SHARED_TYPES, MUT_TRAITS)
     ck.rule("C16.witness", "compile-fail witnesses for immutability of shared buffers")
